@@ -82,8 +82,8 @@ func (a Attr) floatsBits() []uint32 {
 	return out
 }
 
-func AInt(name string, v int64) Attr         { return Attr{Name: name, Kind: "int", I: v} }
-func AInts(name string, v ...int64) Attr     { return Attr{Name: name, Kind: "ints", Ints: v} }
+func AInt(name string, v int64) Attr     { return Attr{Name: name, Kind: "int", I: v} }
+func AInts(name string, v ...int64) Attr { return Attr{Name: name, Kind: "ints", Ints: v} }
 func AFloat(name string, v float32) Attr {
 	return Attr{Name: name, Kind: "float", F: finite32(v), FBits: math.Float32bits(v)}
 }
@@ -95,8 +95,8 @@ func AFloats(name string, v ...float32) Attr {
 	}
 	return a
 }
-func AStr(name string, v string) Attr        { return Attr{Name: name, Kind: "string", S: v} }
-func AStrs(name string, v ...string) Attr    { return Attr{Name: name, Kind: "strings", Strs: v} }
+func AStr(name string, v string) Attr     { return Attr{Name: name, Kind: "string", S: v} }
+func AStrs(name string, v ...string) Attr { return Attr{Name: name, Kind: "strings", Strs: v} }
 func ATensor(name string, t *ref.T, enc string) Attr {
 	return Attr{Name: name, Kind: "tensor", T: ToTJ(t), TEnc: enc}
 }
